@@ -85,3 +85,48 @@ func VHOnce23() {
 	}
 	vCover("once23 done")
 }
+
+// VHOncePanic: a function that panics still counts as the one invocation (as with sync.Once):
+// no later Do call invokes another function.
+func VHOncePanic() {
+	var o1 Once1[int]
+	var o2 Once2[int, int]
+	var o3 Once3[int, int, int]
+	calls := 0
+	which := vChoose("which", 3)
+	p := vPanics(func() {
+		switch which {
+		case 0:
+			o1.Do(func() int { calls++; panic("boom") })
+		case 1:
+			o2.Do(func() (int, int) { calls++; panic("boom") })
+		case 2:
+			o3.Do(func() (int, int, int) { calls++; panic("boom") })
+		}
+	})
+	vAssert(p, "the panic of the first function propagates to its caller")
+	x := vInt("x")
+	switch which {
+	case 0:
+		o1.Do(func() int { calls++; return x })
+	case 1:
+		o2.Do(func() (int, int) { calls++; return x, x })
+	case 2:
+		o3.Do(func() (int, int, int) { calls++; return x, x, x })
+	}
+	vAssert(calls == 1, "exactly one of the functions is invoked, exactly once - even when it panicked")
+	// and with a second goroutine arriving later
+	vGo(func() {
+		switch which {
+		case 0:
+			o1.Do(func() int { calls++; return x })
+		case 1:
+			o2.Do(func() (int, int) { calls++; return x, x })
+		case 2:
+			o3.Do(func() (int, int, int) { calls++; return x, x, x })
+		}
+	})
+	vAssert(vWait(), "a later Do call returns")
+	vAssert(calls == 1, "no later caller's function is invoked after a panicking first invocation")
+	vCover("once panic done")
+}
